@@ -117,8 +117,8 @@ theorem C03_body_seq_exactly_once (xs ys : List Nat) (x k i : Nat) :
     address, are adjacent, together cover exactly the `N` elements, lie inside the extent the pointer they were made
     from is good for, and — for `&mut` — are writable and do not overlap (the interpretation is defined, i.e. `some`) -/
 theorem C09_body_split_views (n k i : Nat) (hk : k ≤ n) :
-    runViews false SeqBody.splitRef ⟨n, k, i⟩ = some [⟨0, k, false⟩, ⟨k, n - k, false⟩] ∧
-    runViews true SeqBody.splitMut ⟨n, k, i⟩ = some [⟨0, k, true⟩, ⟨k, n - k, true⟩] ∧
+    runViews false SeqBody.splitRef ⟨n, k, i⟩ = .views [⟨0, k, false⟩, ⟨k, n - k, false⟩] ∧
+    runViews true SeqBody.splitMut ⟨n, k, i⟩ = .views [⟨0, k, true⟩, ⟨k, n - k, true⟩] ∧
     0 + k = k ∧ k + (n - k) = n :=
   ⟨splitRef_body n k i hk, splitMut_body n k i hk, by omega, by omega⟩
 
@@ -142,14 +142,14 @@ example : run [.allocOut (.add .n (.lit 1)), .writeOut (.lit 0) .arg, .writeOut 
 
 -- the tail made from a pointer that was derived from the *head* view is outside what that pointer is good for
 example : runViews true [.ptrSelf 0 true, .viewAt 0 0 (.lit 0) .k true, .ptrOfView 1 0 true, .viewAt 1 1 .k (.sub .n .k) true,
-    .retViews [0, 1]] ⟨5, 2, 0⟩ = none := by decide
+    .retViews [0, 1]] ⟨5, 2, 0⟩ = .ub := by decide
 -- a `&mut` view made from `as_ptr()` (a pointer that may not be written through)
 example : runViews true [.ptrSelf 0 false, .viewAt 0 0 (.lit 0) .k true, .viewAt 1 0 .k (.sub .n .k) true, .retViews [0, 1]]
-    ⟨5, 2, 0⟩ = none := by decide
+    ⟨5, 2, 0⟩ = .ub := by decide
 -- overlapping mutable halves
 example : runViews true [.ptrSelf 0 true, .viewAt 0 0 (.lit 0) .k true, .viewAt 1 0 (.lit 1) (.sub .n (.lit 1)) true, .retViews [0, 1]]
-    ⟨5, 2, 0⟩ = none := by decide
-example : runViews true SeqBody.splitMut ⟨5, 2, 0⟩ = some [⟨0, 2, true⟩, ⟨2, 3, true⟩] := by decide
+    ⟨5, 2, 0⟩ = .ub := by decide
+example : runViews true SeqBody.splitMut ⟨5, 2, 0⟩ = .views [⟨0, 2, true⟩, ⟨2, 3, true⟩] := by decide
 
 end GA.Props.BodySeq
 
